@@ -9,7 +9,7 @@ from vlib.wsgi import FragStream, make_environ, call_app
 
 ID = 'C13'
 LEVEL = 'exploration'
-RULE = ('case = (content kind in {raw body, urlencoded form, JSON, multipart text fields, multipart file part, multipart part with an empty file name}, max_body_size M in {None, 1, 20, 100, 1000} '
+RULE = ('case = (content kind in {raw body, urlencoded form, JSON, multipart text fields, multipart file part, multipart part with an empty file name, small multipart form followed by an epilogue / preceded by a preamble of S bytes}, max_body_size M in {None, 1, 20, 100, 1000} '
         'or generated, max_memfile_size B in {1, 8, 33, 64, 256, 4096} (>= 8 for chunked framing: the size-line scanner is bounded by the buffer), body size S '
         'placed at 0, 1, M-1, M, M+1, M+B-1, M+B, M+B+1, 3M, B-1, B, B+1, 2B.. or generated, framing = Content-Length or chunked (optionally with an additional Content-Length header, which the transfer coding overrides) with chunk sizes 1, 3, B, >B, '
         'one huge chunk, read fragmentation caps). Oracle from a recording wsgi.input: S > M => 413 and the payload bytes handed out by the stream <= M + B '
@@ -72,6 +72,16 @@ def build_body(kind, S, extra):
         body, truth = encode_multipart('bnd', parts, b'', b'\r\n')
         mem = sum(e - s for k, s, e in truth['sections'] if k == 'headers') + 5
         return body, 'multipart/form-data; boundary=bnd', content, mem
+    if kind in ('mp_epilogue', 'mp_preamble'):
+        # a small form whose bulk (S bytes) is text after the closing delimiter / before the first delimiter: it counts as body, not as form text
+        parts = [{'name': 't', 'value': b'small'}, {'name': 'f', 'filename': 'u.bin', 'value': b'content'}]
+        junk = data_of(S, 9).replace(b'-', b'_')
+        if kind == 'mp_epilogue':
+            body, truth = encode_multipart('bnd', parts, b'', b'\r\n' + junk)
+        else:
+            body, truth = encode_multipart('bnd', parts, b'\r\n' + junk + b'\r\n', b'\r\n')
+        mem = sum(e - s for k, s, e in truth['sections'] if k == 'headers') + 5
+        return body, 'multipart/form-data; boundary=bnd', {'t': 'small', 'f': b'content'}, mem
     if kind == 'mp_file':
         content = data_of(S, 3)
         parts = [{'name': 'f', 'filename': 'u.bin', 'ctype': 'application/octet-stream', 'value': content}]
@@ -116,6 +126,9 @@ def check_case(ctx, case):
         elif kind == 'mp_emptyfn':
             seen['forms'] = dict(rq.forms)
             seen['nfiles'] = len(rq.files)
+        elif kind in ('mp_epilogue', 'mp_preamble'):
+            seen['value'] = {'t': rq.forms.get('t'), 'f': rq.files['f'].file.read()}
+            seen['body'] = rq.body.read()
         elif kind == 'mp_file':
             up = rq.files['f']
             seen['value'] = up.file.read()
@@ -216,6 +229,20 @@ def check_case(ctx, case):
                     raise CheckFailure(f'{what}: the handler obtained {text} characters of form text although max_memfile_size is {B} '
                                        f'(a part with an empty file name was loaded into memory)')
                 ctx.count('empty_filename_part_beyond_threshold' if S > B else 'empty_filename_part_small')
+        elif kind in ('mp_epilogue', 'mp_preamble'):
+            if mem > B:
+                ctx.exclude('file_part_header_block_larger_than_buffer')
+            else:
+                if kind == 'mp_preamble' and r.code == 400:
+                    ctx.count('preamble_refused_400')        # text before the first delimiter is refused by the form reader: only the size rules are judged
+                elif r.code != 200:
+                    raise CheckFailure(f'{what}: form with {S} bytes of {kind[3:]} within the limit answered {r.status!r} {r.errors[-300:]}')
+                elif seen.get('value') != want:
+                    raise CheckFailure(f'{what}: form values differ: {seen.get("value")!r}')
+                elif seen.get('body') != body:
+                    raise CheckFailure(f'{what}: request.body ({len(seen.get("body") or b"")} bytes) is not the body sent ({total} bytes)')
+                if r.code == 200:
+                    ctx.count(kind + '_accepted')
         elif kind == 'mp_file':
             if mem > B:
                 ctx.exclude('file_part_header_block_larger_than_buffer')
@@ -248,7 +275,7 @@ def check_case(ctx, case):
 
 @st.composite
 def case_st(draw):
-    kind = draw(st.sampled_from(['raw', 'raw', 'urlencoded', 'json', 'mp_text', 'mp_text', 'mp_file', 'mp_emptyfn']))
+    kind = draw(st.sampled_from(['raw', 'raw', 'urlencoded', 'json', 'mp_text', 'mp_text', 'mp_file', 'mp_emptyfn', 'mp_epilogue', 'mp_preamble']))
     chunked = draw(st.booleans())
     B = draw(st.sampled_from([8, 33, 64, 256, 4096] if chunked else [1, 2, 8, 33, 64, 256, 4096]))
     M = draw(st.sampled_from([None, None, 1, 20, 100, 1000]) | st.integers(0, 600))
@@ -257,7 +284,7 @@ def case_st(draw):
         cands |= {M - 1, M, M + 1, M + B - 1, M + B, M + B + 1, 3 * M + 2, M + 2 * B}
     cands = sorted(c for c in cands if 0 <= c <= 20000)
     S = draw(st.sampled_from(cands) | st.integers(0, 700))
-    if kind in ('mp_file', 'mp_emptyfn'):
+    if kind in ('mp_file', 'mp_emptyfn', 'mp_epilogue', 'mp_preamble'):
         # the header block of the part (~100 bytes) must fit the in-memory budget; the interesting side is file content >> B
         B = draw(st.sampled_from([128, 256, 4096]))
         S = draw(st.sampled_from([0, 1, B - 1, B, B + 1, 2 * B, 5 * B + 3]) | st.integers(0, 3 * B))
@@ -284,6 +311,12 @@ def run(ctx):
         ctx.count('corpus')
     if ctx.shard == 0:
         # grid around the limits (property's own enumeration): every kind x framing x edge size
+        for kind in ('mp_epilogue', 'mp_preamble'):
+            for B in (128, 256):
+                for M in (None, 300, 1000):
+                    for S in (0, 1, 50, B, 700, 701, 2000, 20000):
+                        for chunks in (None, [B], [100000]):
+                            ctx.guarded(check_case, {'kind': kind, 'S': S, 'M': M, 'B': B, 'nparts': 1, 'chunks': chunks, 'pattern': []})
         for kind in ('raw', 'urlencoded', 'json', 'mp_text', 'mp_file', 'mp_emptyfn'):
             for M in (None, 20, 150):
                 for B in (8, 64):
